@@ -133,6 +133,8 @@ class AllocAnalysis(Analysis):
                 st = self._walk(node, st, a)
             c = callee(e)
             args = e.kids[1:]
+            if c == ("fn", "PyErr_Clear") and sget(st, "e:pending") is not None:
+                st = sdel(st, "e:pending")
             if c[0] == "fn":
                 pos = NULL_INTOLERANT.get(c[1])
                 if pos:
@@ -267,6 +269,9 @@ class AllocAnalysis(Analysis):
                                 "allocation stored in %s fails: the node keeps "
                                 "a capacity its arrays do not have (later "
                                 "writes run past the block)" % (k[2:], v, p))
+        if org in ("BTree_Realloc", "BTree_Malloc") and not nonnull_edge:
+            # the wrapper has set MemoryError
+            st = sset(st, "e:pending", "%s from %s at %s" % (p, org, node.where))
         if sget(st, "m:" + p) is not None:
             st = sdel(st, "m:" + p)
         if not nonnull_edge and sget(st, "r:" + p) is not None:
@@ -274,9 +279,41 @@ class AllocAnalysis(Analysis):
             st = sdel(st, "r:" + p)
         return st
 
+    def _error_return(self, n, st):
+        """True / False / None (unknown): does this return signal an error?"""
+        rt = (self.cfg.fn.t or "").split("(")[0].strip()
+        if n.e is None:
+            return None
+        v = self.flag_value_of(n.e, st)
+        if rt.endswith("*"):
+            if v == 0:
+                return True
+            if v == "NN":
+                return False
+            org = sget(st, "e:pending") or ""
+            if path(n.e) is not None and org.startswith(path(n.e) + " from "):
+                return True         # returns the NULL it received
+            return None
+        if rt in ("size_t", "unsigned int", "unsigned long", "void"):
+            return False            # no error convention: every return is a success
+        if isinstance(v, int):
+            return v < 0
+        return None
+
     def check_exits(self):
         for n in self.cfg.returns():
             for st in self.IN.get(n.id, ()):
+                pend = sget(st, "e:pending")
+                if pend is not None and self._error_return(n, st) is False:
+                    self.report("EXC-PENDING", n, st,
+                                "success return with MemoryError pending (%s)" % pend.split(" at ")[0],
+                                "the allocation wrapper raised MemoryError "
+                                "(%s); this path recovers and returns a "
+                                "success value without clearing it: the "
+                                "caller's next C-API call fails with "
+                                "SystemError / a stale MemoryError. A "
+                                "fallback path must use the raw allocator "
+                                "or PyErr_Clear()" % pend)
                 for k, v in st:
                     if k.startswith("x:"):
                         self.report("FREE-DISC", n, st,
